@@ -344,12 +344,44 @@ class PathEval:
             d = self.operand(t["discr"])
             vals = [v for v, tb in t["targets"] if tb == nxt]
             if vals and nxt != t["otherwise"]:
-                self.conds.append((d, ("in", tuple(vals)), b, t.get("discr_ty")))
+                cc = ("in", tuple(vals))
             elif nxt == t["otherwise"]:
-                others = tuple(v for v, tb in t["targets"] if tb != nxt)
-                self.conds.append((d, ("notin", others), b, t.get("discr_ty")))
+                cc = ("notin", tuple(v for v, tb in t["targets"] if tb != nxt))
             else:
-                self.conds.append((d, ("in", tuple(vals)), b, t.get("discr_ty")))
+                cc = ("in", tuple(vals))
+            d, cc = self._norm_cond(d, cc, t.get("discr_ty"))
+            if d is None:
+                if cc is False:
+                    self.infeasible = True
+                return
+            self.conds.append((d, cc, b, t.get("discr_ty")))
+
+    infeasible = False
+
+    @staticmethod
+    def _norm_cond(d, cc, ty):
+        """boolean conditions in one canonical form: negations stripped, `a != b` read as not `a == b`, comparisons of a
+        boolean with a constant removed, constant conditions decided ((None, True) holds trivially, (None, False) makes
+        the path infeasible). Other discriminants are left as they are."""
+        if ty != "bool" or cc not in (("in", (0,)), ("notin", (0,)), ("in", (1,)), ("notin", (1,))):
+            if d[0] == "c" and isinstance(d[1], int) and not isinstance(d[1], bool):
+                holds = (d[1] in cc[1]) if cc[0] == "in" else (d[1] not in cc[1])
+                return None, holds
+            return d, cc
+        truth = cc in (("notin", (0,)), ("in", (1,)))
+        for _ in range(8):
+            if d[0] == "un" and d[1] == "Not":
+                d, truth = d[2], not truth
+            elif d[0] == "bin" and d[1] == "Ne":
+                d, truth = ("bin", "Eq") + tuple(d[2:]), not truth
+            elif d[0] == "bin" and d[1] == "Eq" and any(x[0] == "c" and isinstance(x[1], bool) for x in (d[2], d[3])):
+                k, o = (d[2], d[3]) if d[2][0] == "c" and isinstance(d[2][1], bool) else (d[3], d[2])
+                d, truth = o, (truth if k[1] else not truth)
+            else:
+                break
+        if d[0] == "c" and isinstance(d[1], (bool, int)):
+            return None, bool(d[1]) == truth
+        return d, (("notin", (0,)) if truth else ("in", (0,)))
 
     def ret(self):
         return self.local(0)
